@@ -529,8 +529,12 @@ func (g *Grammar) Expand() *Plain {
 		bt := *t
 		bt.Card = ""
 		bname := bt.Lox()
+		bang := ""
+		if t.Card == "*!" {
+			bang = "!" // lox keeps the helpers of x*! apart from those of x*
+		}
 		plus := func() int {
-			name := bname + "+"
+			name := bname + "+" + bang
 			if i, ok := idx[name]; ok {
 				return i
 			}
@@ -552,7 +556,7 @@ func (g *Grammar) Expand() *Plain {
 		case "+":
 			return Sym{ID: plus()}
 		case "*", "*!":
-			name := bname + "*"
+			name := bname + "*" + bang
 			if i, ok := idx[name]; ok {
 				return Sym{ID: i}
 			}
